@@ -52,6 +52,23 @@ CLAIMED = {
              "and are outside the statement.",
         technique="Lean 4 proof (foldlM append / induction over histories, reuse of the C01 refinement) + differential correspondence + relation oracle on the implementation",
         ref="DESIGN.md §4 C17"),
+    "C07": dict(
+        text="Lean 4 theorems over every linearly ordered commutative group of scalars, for paths of every length: with an exact number "
+             "printer, for every valid path (the SVG 2 interpretation of any conforming command list: any segment mix, several subpaths, "
+             "closes, subpaths begun without their own move) and each of the 9 (relative, smooth) option pairs, the command list svg_d "
+             "writes (Model/PathPrint: letter case from the three-valued relative option and the segment's memory, running current "
+             "point, S/T chosen by is_smooth_from against the previous segment) is conforming and is interpreted back - by the "
+             "specification interpreter and, via C01, by the library's builder - to the same number, kinds and coordinates of segments: "
+             "relative offsets re-accumulate, and smooth shorthand is written exactly when the reader's reflection rule reconstructs the "
+             "control point (both degrees, after any predecessor). The svg_d model is compared token-wise with Path.d() for all 9 "
+             "option pairs on generated paths; the round trip Path(p.d(r,s)) vs abs(p) (also transformed paths, str, Subpath.d) is "
+             "evaluated on the implementation within the 12-digit bound, arcs pointwise.",
+        note="Partial: number formatting (%.12G) and float(text) enter only through the harness bound (2e-11 x size x segments); the "
+             "re-derivation of arc radii/rotation/flags from the centre form by Arc.d() is decided by the oracle, not by theorem. Known "
+             "findings C07-arc-d-6digits (radii printed with 6 digits; attributed only when the 6-digit prediction explains the deviation) "
+             "and C07-subpath-without-move.",
+        technique="Lean 4 proof (list induction; abel over an ordered commutative group; case analysis of the printer's decisions) + token-wise differential correspondence + round-trip oracle on the implementation",
+        ref="DESIGN.md §4 C07"),
     "C04": dict(
         text="Lean 4 theorems over an arbitrary field: point application/composition associativity, two-sided inverse, "
              "every pre_/post_ operation = left/right multiplication by the elementary matrix about its centre, and "
